@@ -901,6 +901,9 @@ def _advance_head_front(state: State, heads: List[FlowHead]) -> List[FlowHead]:
         if flow_state.status == FlowStatus.WAITING:
             flow_state.status = FlowStatus.STARTING
 
+        # True if the flow already reached a waiting statement before (was started)
+        flow_was_started = flow_state.status == FlowStatus.STARTED
+
         flow_finished = False
         flow_aborted = False
         try:
@@ -978,6 +981,15 @@ def _advance_head_front(state: State, heads: List[FlowHead]) -> List[FlowHead]:
             _finish_flow(state, flow_state, head.matching_scores)
             log.debug("Flow finished: %s with last element", head.flow_state_uid)
         elif flow_aborted:
+            if flow_state.activated > 0 and not flow_was_started:
+                # Avoid an activated flow that failed before it ever waited for an event
+                # from being restarted since this would end in an infinite loop
+                log.warning(
+                    "Did not restart activated flow '%s' that failed immediately"
+                    " since this would have created an infinite loop!",
+                    flow_state.flow_id,
+                )
+                flow_state.new_instance_started = True
             _abort_flow(state, flow_state, head.matching_scores)
             log.debug("Flow aborted: %s by 'abort' statement", head.flow_state_uid)
 
